@@ -45,7 +45,10 @@ SQL_TEXT = ["o'k", '"q"', 'back\\slash', '100%', '', ' ', "''", 'a\'b"c',
 AWKWARD_COLS = ['select', 'from', 'order', 'group by', 'a b', 'é', '中', 'Mixed',
                 'x-y', "it's", 'a.b', '1st', 'col', 'value', 'index', 't',
                 'share %', '% done', '%s', '%d x', 'a%%b', '{0}', '{x}',
-                'a:b', '?', '[x]', '$1', 'semi;']
+                'a:b', '?', '[x]', '$1', 'semi;',
+                # names of things the implementation keeps per table
+                'columns', 'fields', 'cache', 'rows', 'types', 'name',
+                'count', 'nulls', 'table']
 
 
 def text_values():
